@@ -377,7 +377,7 @@ func raceTopFrame(report string, re *regexp.Regexp) bool {
 func matchFinding(fs []Finding, prop string, v *Violation) *Finding {
 	for i := range fs {
 		f := &fs[i]
-		if f.Status != "known" || f.Property != prop || f.Oracle != v.Oracle {
+		if f.Status != "known" || f.Property != prop || (f.Oracle != v.Oracle && f.Oracle != "*") {
 			continue
 		}
 		if f.RaceTopFrame != "" {
